@@ -10,5 +10,5 @@ STANDINS = ["eq_matrix"]
 ASSUMPTIONS = ["xarray.DataArray.equals(a, b) <=> same dims, shape and values (assumed contract, equivalence relation)",
                "Grid property reads (node_lon, node_lat, face_node_connectivity) are deterministic functions of the grid (C08)"]
 EXPLANATION = "boolean structure of __eq__/__ne__ against the stated iff; reflexive/symmetric follow from the iff and the assumed equivalence"
-LEVEL_TEXT = 'Grid.__eq__/__ne__ proved against the stated iff over all truth assignments of (format, lon, lat, connectivity) equal; reflexive/symmetric by the assumed equivalence of DataArray.equals; exhaustive 16-case matrix on real grids'
+LEVEL_TEXT = 'Grid.__eq__/__ne__ proved against the stated iff over all truth assignments of (format, lon, lat, connectivity) equal; reflexive/symmetric by the assumed equivalence of DataArray.equals; __ne__ proved in abstract mode: anything else it might consult (dimension sizes, derived tables, caches) is state two equal grids need not share; exhaustive 16-case matrix on real grids and access-history pairs bounded'
 LEVEL_NOTE = 'xarray.DataArray.equals assumed to be an equivalence on (dims, shape, values)'
